@@ -29,7 +29,9 @@ P  == Traces[tid].init.p
 C  == Traces[tid].init.c
 HL == Traces[tid].init.hl
 
-TInit == tid \in 1..NTraces /\ l = 1 /\ verdict = "ok" /\ lists = <<>> /\ pend = {}
+\* crawls of trees whose names p cannot express are outside the property; the harness must not submit them
+TInit == tid \in 1..NTraces /\ l = 1 /\ lists = <<>> /\ pend = {}
+         /\ verdict = IF CaseExpressible(Traces[tid].init.p, Traces[tid].init.c) THEN "ok" ELSE "unmatched"
 
 HasList(ref) == \E i \in 1..Len(lists) : lists[i].ref = ref
 ListOf(ref) == lists[CHOOSE i \in 1..Len(lists) : lists[i].ref = ref]
